@@ -252,6 +252,12 @@ where
         active_channels_mask: Option<&[bool]>,
     ) -> ResampleResult<(usize, usize)> {
         if let Some(mask) = active_channels_mask {
+            if mask.len() != self.nbr_channels {
+                return Err(ResampleError::WrongNumberOfMaskChannels {
+                    expected: self.nbr_channels,
+                    actual: mask.len(),
+                });
+            }
             self.channel_mask.copy_from_slice(mask);
         } else {
             update_mask_from_buffers(&mut self.channel_mask);
@@ -573,6 +579,12 @@ where
         active_channels_mask: Option<&[bool]>,
     ) -> ResampleResult<(usize, usize)> {
         if let Some(mask) = active_channels_mask {
+            if mask.len() != self.nbr_channels {
+                return Err(ResampleError::WrongNumberOfMaskChannels {
+                    expected: self.nbr_channels,
+                    actual: mask.len(),
+                });
+            }
             self.channel_mask.copy_from_slice(mask);
         } else {
             update_mask_from_buffers(&mut self.channel_mask);
